@@ -49,6 +49,9 @@ func runHistory(prop string, seed int64, prm [4]uint64, float int64, n int, g *G
 			break
 		}
 		ok, cur := w.step(op)
+		if g != nil {
+			g.note(op, ok, cur)
+		}
 		mon.Check(prop, op, ok, prev, cur)
 		res.ops = append(res.ops, op)
 		res.steps = append(res.steps, "("+coqOp(op)+", "+coqObs(ok, cur)+")")
